@@ -136,12 +136,19 @@ class World:
         self.asg_seen = {}        # id(assignment) -> assignment (accepted)
         self.model_dead = False
         self.static_reject = None
+        self.dirty_pipelines = set()
         self.last_reject = None   # reason for which the reference executor refused the last tick's commands (if it did)
         self.exec_call = None     # F6 routes the call to the unwrapped Executor.run_one_tick
 
     # -- helpers -----------------------------------------------------------
     def close(self):
         global CURRENT
+        if len(self.pipelines) > 96 and not getattr(self, "_closed", False):
+            self._closed = True
+            try:
+                self.boundary_checks(full=True)
+            except Exception:
+                pass
         if CURRENT is self:
             CURRENT = None
 
@@ -156,6 +163,14 @@ class World:
         seq = len(self.tlog)
         o, n = (old.value if old is not None else None), new.value
         self.tlog.append((seq, self.tick, self.phase, op, o, n))
+        try:
+            self.dirty_pipelines.add(op.pipeline)
+        except AttributeError:
+            self.dirty_pipelines = {op.pipeline}
+        try:
+            self.cmp_dirty.add(op.pipeline)
+        except AttributeError:
+            self.cmp_dirty = {op.pipeline}
         sh = self.shadow.get(op, P)
         if sh != o:
             self.flag({"C02"}, "untracked-change", f"{self.name(op)}: log says {sh}, object said {o} before {o}->{n}")
@@ -198,6 +213,10 @@ class World:
 
     def register(self, p, record=True):
         self.pipelines.append(p)
+        try:
+            self.arrived_set.add(p)
+        except AttributeError:
+            self.arrived_set = {p}
         ops = list(p.runtime_status().operator_states.keys())
         for j, op in enumerate(ops):
             self.shadow.setdefault(op, P)
@@ -448,8 +467,25 @@ class World:
             return  # everything below would only restate the same divergence
         for k, kind in pred:
             self.stats["results_" + kind] += 1
-        # operator states
-        for p in self.pipelines:
+        # operator states (many pipelines: those the log or the model touched since the last comparison)
+        cmp_pipes = self.pipelines
+        if len(cmp_pipes) > 96:
+            touched = set(getattr(self, "cmp_dirty", ()))
+            for mp_ in m.pools:
+                for rc_ in mp_.live:
+                    for op_ in rc_.ops:
+                        touched.add(op_.pipeline)
+            for k_, _ in pred:
+                rc_ = m.all.get(k_)
+                if rc_ is not None:
+                    for op_ in rc_.ops:
+                        touched.add(op_.pipeline)
+            for a_ in asg:
+                for op_ in a_.ops:
+                    touched.add(op_.pipeline)
+            cmp_pipes = [p_ for p_ in touched if p_ in getattr(self, 'arrived_set', ())]
+        self.cmp_dirty = set()
+        for p in cmp_pipes:
             for op, st in p.runtime_status().operator_states.items():
                 w = m.opstate.get(op)
                 if st.value != w:
@@ -620,9 +656,20 @@ class World:
                     seen[op] = c.container_id
 
     # -- phase-boundary checks on ground truth ------------------------------
-    def boundary_checks(self):
+    def boundary_checks(self, full=False):
         shadow = self.shadow
-        for p in self.pipelines:
+        todo = self.pipelines
+        if len(todo) > 96 and not full:
+            # many pipelines: those that had a transition since the last look, the newest arrivals, and a window that
+            # rotates over all the others (a change behind the log's back stays visible until the window reaches it;
+            # close() looks at everything once more)
+            dirty = self.dirty_pipelines
+            k = self._rot = (getattr(self, "_rot", 0) + 48) % len(todo)
+            todo = list(dirty) + todo[-8:] + (todo[k:k + 48] if k + 48 <= len(todo) else todo[k:] + todo[:(k + 48) % len(todo)])
+            self.dirty_pipelines = set()
+        elif getattr(self, "dirty_pipelines", None):
+            self.dirty_pipelines = set()
+        for p in todo:
             st = p.runtime_status()
             states = st.operator_states
             cnt = {}
